@@ -413,6 +413,8 @@ pub struct World {
     /// number of the peer's data packets the endpoint has received in order (by the harness's model)
     pub peer_sent: std::collections::BTreeSet<usize>,
     pub peer_fin_idx: Option<usize>,
+    /// the scripted peer has sent a data packet beyond the window the endpoint last advertised to it
+    pub peer_exceeded_window: bool,
     /// highest cumulative ack_nr the peer has sent
     pub peer_cum_ack: u16,
     /// first / highest sequence number the endpoint has put on the wire (data or FIN)
@@ -482,6 +484,7 @@ impl World {
             writer_err: None,
             peer_sent: Default::default(),
             peer_fin_idx: None,
+            peer_exceeded_window: false,
             peer_cum_ack: if cfg.incoming { cfg.our_isn.wrapping_sub(1) } else { cfg.our_isn },
             ep_first_seq: None,
             ep_hi_seq: None,
@@ -629,6 +632,13 @@ impl World {
                     }
                 }
                 let o = self.peer_off_of(i);
+                if !self.peer_sent.contains(&i) {
+                    let acked_idx = self.ep_ack_index();
+                    let acked_bytes = if acked_idx >= 0 { self.peer_off_of((acked_idx + 1) as usize) } else { 0 };
+                    if o + len as u64 > acked_bytes + self.ep_last_wnd as u64 {
+                        self.peer_exceeded_window = true;
+                    }
+                }
                 let pl: Vec<u8> = (0..len as u64).map(|k| coded(o + k, SALT_PEER)).collect();
                 peer_idx = Some(i);
                 (0, self.peer_seq_of(i as i64), self.resolve_ack(*ack), self.resolve_wnd(*wnd), None, pl)
@@ -1480,6 +1490,7 @@ impl World {
             out.push(*d as u64);
         }
         out.push(self.peer_fin_idx.map(|x| x as u64).unwrap_or(u64::MAX));
+        out.push(self.peer_exceeded_window as u64);
         out.push(self.peer_cum_ack as u64);
         out.push(self.ep_first_seq.map(|x| x as u64).unwrap_or(u64::MAX));
         out.push(self.ep_hi_seq.map(|x| x as u64).unwrap_or(u64::MAX));
